@@ -227,6 +227,9 @@ import ast as _ast
 import __future__ as _future
 
 
+LOOP_MAXLEN = min(MAXLEN, 4)  # history bound for the whole-loop contracts (3 quick, 4 thorough: each extra epoch multiplies the paths)
+
+
 class _Exhausted(Exception):
     pass
 
@@ -307,7 +310,7 @@ def check_train_loop_trainloss(losses: List[float], patience: int, min_delta: fl
     """
     The real ml.train with TrainLoss: runs exactly up to the specified stopping epoch and returns the model of the best epoch.
     pre: 0 <= patience <= 2 and 0 <= min_delta <= 8
-    pre: 1 <= len(losses) <= MAXLEN
+    pre: 1 <= len(losses) <= LOOP_MAXLEN
     pre: all(0 <= l <= 100 for l in losses)
     post: _
     """
@@ -318,7 +321,7 @@ def check_train_loop_valloss(losses: List[float], patience: int, min_delta: floa
     """
     The real ml.train with ValLoss and validation data.
     pre: 0 <= patience <= 2 and 0 <= min_delta <= 8
-    pre: 1 <= len(losses) <= MAXLEN
+    pre: 1 <= len(losses) <= LOOP_MAXLEN
     pre: all(0 <= l <= 100 for l in losses)
     post: _
     """
